@@ -19,6 +19,34 @@ type Runner struct {
 	Out     *bufio.Writer
 	NoDump  bool
 	NoEvent bool
+	prev    []string
+}
+
+// Delta is the difference of two sorted line lists: "-line" for lines only in old, "+line" for
+// lines only in cur, in merged order.
+func Delta(old, cur []string) []string {
+	var out []string
+	i, j := 0, 0
+	for i < len(old) || j < len(cur) {
+		switch {
+		case i >= len(old):
+			out = append(out, "+"+cur[j])
+			j++
+		case j >= len(cur):
+			out = append(out, "-"+old[i])
+			i++
+		case old[i] == cur[j]:
+			i++
+			j++
+		case old[i] < cur[j]:
+			out = append(out, "-"+old[i])
+			i++
+		default:
+			out = append(out, "+"+cur[j])
+			j++
+		}
+	}
+	return out
 }
 
 func NewRunner(w io.Writer) *Runner {
@@ -34,9 +62,11 @@ func (r *Runner) emit(op *Op, result string, events []string, dump bool) {
 		}
 	}
 	if dump && !r.NoDump && r.Sim != nil {
-		for _, l := range r.Sim.Dump() {
+		cur := r.Sim.Dump()
+		for _, l := range Delta(r.prev, cur) {
 			fmt.Fprintln(r.Out, l)
 		}
+		r.prev = cur
 	}
 	r.Out.Flush()
 }
@@ -141,6 +171,7 @@ func (r *Runner) Exec(line string) error {
 func (s *Sim) MintProbe(t int64) []string {
 	ctx := s.QueryCtx().WithBlockTime(unixNano(t))
 	cctx, _ := ctx.CacheContext()
+	before := len(s.App.CustomMintKeeper.GetInflations(cctx))
 	res := ""
 	func() {
 		defer func() {
@@ -163,8 +194,14 @@ func (s *Sim) MintProbe(t int64) []string {
 	if len(rem) > 0 {
 		remS = strings.Join(rem, ",")
 	}
+	// the minter's inflation is advanced by the SDK mint module in every block; it is determined by
+	// the hub's hook only when at least one entry was applied by this run of the hook
+	infl := "-"
+	if len(rem) < before {
+		infl = minter.Inflation.BigInt().String()
+	}
 	return []string{fmt.Sprintf("M max=%s min=%s rate=%s infl=%s remaining=%s", mp.InflationMax.BigInt(), mp.InflationMin.BigInt(),
-		mp.InflationRateChange.BigInt(), minter.Inflation.BigInt(), remS)}
+		mp.InflationRateChange.BigInt(), infl, remS)}
 }
 
 // Run executes every line of the reader.
